@@ -405,7 +405,9 @@ func (mr *msgReader) Read(p []byte) (n int, err error) {
 	defer mr.c.readMu.unlock()
 
 	n, err = mr.limitReader.Read(p)
-	if mr.flate && mr.flateContextTakeover() {
+	// mr.dict is nil if the connection was closed during the read above, which
+	// happens when a close frame is received between the fragments of a message.
+	if mr.flate && mr.flateContextTakeover() && mr.dict != nil {
 		p = p[:n]
 		mr.dict.write(p)
 	}
